@@ -19,8 +19,85 @@ from ..flow import Analysis, sget, sset, sdel, witness_lines
 INT_TYPES = ("int", "long", "Py_ssize_t")
 
 
-def error_functions(tu):
+def _expr_values(e, fn, tu, memo, depth=0):
+    """set of integers the expression can have, or None when not known.
+    Locals are resolved flow-insensitively through all their assignments."""
+    e = strip(e)
+    if e is None:
+        return None
+    c = const_int(e)
+    if c is not None:
+        return {c}
+    if e.k == "BinaryOperator" and e.v in ("==", "!=", "<", ">", "<=", ">=", "&&", "||"):
+        return {0, 1}
+    if e.k == "UnaryOperator" and e.v == "!":
+        return {0, 1}
+    if e.k == "ConditionalOperator" and len(e.kids) == 3:
+        a = _expr_values(e.kids[1], fn, tu, memo, depth)
+        b = _expr_values(e.kids[2], fn, tu, memo, depth)
+        return None if a is None or b is None else a | b
+    if e.k == "CallExpr":
+        c = callee(e)
+        if c[0] == "fn" and c[1] in tu.funcs and depth < 3:
+            return return_set(tu, c[1], memo, depth + 1)
+        return None
+    if e.k == "DeclRefExpr" and e.rk == "VarDecl" and depth < 6:
+        out = set()
+        found = False
+        for n in fn.walk():
+            rhs = None
+            if n.k == "BinaryOperator" and n.v == "=" and path(n.kids[0]) == e.n:
+                rhs = n.kids[1]
+            elif n.k == "VarDecl" and n.n == e.n and n.kids and n.kids[-1].k != "Absent":
+                rhs = n.kids[-1]
+            elif n.k in ("CompoundAssignOperator",) and path(n.kids[0]) == e.n:
+                return None
+            elif n.k == "UnaryOperator" and n.v in ("++", "--", "post++", "post--", "&") and path(n.kids[0]) == e.n:
+                return None
+            if rhs is None:
+                continue
+            r = strip(rhs)
+            if r is not None and r.k == "DeclRefExpr" and r.n == e.n:
+                continue
+            v = _expr_values(rhs, fn, tu, memo, depth + 1)
+            if v is None:
+                return None
+            out |= v
+            found = True
+        return out if found else None
+    return None
+
+
+def return_set(tu, name, memo, depth=0):
+    """set of integers the repository function can return, or None"""
+    key = (tu.family, name)
+    if key in memo:
+        return memo[key]
+    memo[key] = None            # recursion guard
+    fn = tu.funcs[name]
+    body = tu.body(name)
+    if body is None:
+        return None
     out = set()
+    for n in body.walk():
+        if n.k == "ReturnStmt" and n.kids:
+            v = _expr_values(n.kids[0], fn, tu, memo, depth)
+            if v is None:
+                out = None
+                break
+            out |= v
+    memo[key] = out
+    return out
+
+
+def error_functions(tu):
+    """{function: negative values it may return} for the integer functions of
+    the unit that report failure by a negative constant - written in a return
+    statement or assigned to the local that is returned.  When the values of a
+    function are not all known the negatives are (-3, -2, -1): any test that
+    admits one of them does not exclude the error."""
+    out = {}
+    memo = {}
     for name in tu.order:
         fn = tu.funcs[name]
         if (fn.t or "").split("(")[0].strip() not in INT_TYPES:
@@ -28,11 +105,17 @@ def error_functions(tu):
         body = tu.body(name)
         if body is None:
             continue
+        vals = return_set(tu, name, memo)
+        if vals is not None:
+            negs = set(v for v in vals if v < 0)
+            if negs:
+                out[name] = frozenset(negs)
+            continue
         for n in body.walk():
             if n.k == "ReturnStmt" and n.kids:
                 v = const_int(n.kids[0])
                 if v is not None and v < 0:
-                    out.add(name)
+                    out[name] = frozenset((-3, -2, -1, v))
                     break
     return out
 
@@ -123,7 +206,8 @@ class ErrIgnored(Analysis):
         def holds(x):
             return {"==": x == cb, "!=": x != cb, "<": x < cb, ">": x > cb,
                     "<=": x <= cb, ">=": x >= cb}[op] == want
-        if not any(holds(x) for x in (-3, -2, -1)):
+        negs = self.errfns.get(sget(st, "ev:" + a.n)) or (-3, -2, -1)
+        if not any(holds(x) for x in negs):
             st = sdel(st, "ev:" + a.n)
         return st
 
